@@ -244,7 +244,7 @@ class StreamableHTTPTransport(Transport):
                             if not response_text:
                                 logger.debug(f"Empty response body for {message_id}")
                                 # For notifications, this is fine
-                                if not message_id:
+                                if message_id is None:
                                     return
                                 # For requests, send an empty success response
                                 success_response = {
